@@ -28,7 +28,7 @@ class BNReplayer:
         sg, nn = self.sg, self.sg.nn
         div = []
         mom = None if not consts["Momentum"] else qf(consts["Momentum"][0])
-        eps = 1e-5
+        eps = qf(consts.get("Eps", [1, 100000]))
         shapes = {len(b["shape"]) for b in consts["Batches"]}
         cls = nn.BatchNorm2d if 4 in shapes else nn.BatchNorm1d
         bn = cls(consts["NC"], eps=eps, momentum=mom, affine=consts["Affine"], track_running_stats=consts["Track"], dtype=self.dtype)
